@@ -2064,7 +2064,7 @@ class _GroupElem(ABC):
             matrixType = MatrixType.mass
             jacobian_e_pg = self.Get_jacobian_e_pg(matrixType, absoluteValues=False)
             invF_e_pg = self.Get_invF_e_pg(matrixType)
-            dN_tild = self._dN()
+            N_tild = self._N()
             xiOrigin = self.origin  # origin of the reference element (ξ0,η0)
 
             # Check whether iterative resolution is required
@@ -2125,9 +2125,8 @@ class _GroupElem(ABC):
                     # This is the most time-consuming method.
                     # We need to construct the Jacobian matrices here.
                     def Eval(xi: _types.FloatArray, xP: _types.FloatArray):
-                        dN = _GroupElem._Eval_Functions(dN_tild, xi.reshape(1, -1))
-                        F = dN[0] @ coordElemBase[:, :dim]  # jacobian matrix [J]
-                        J = x0 + (xi - xiOrigin) @ F - xP  # cost function
+                        N = _GroupElem._Eval_Functions(N_tild, xi.reshape(1, -1))
+                        J = N[0, 0] @ coordElemBase[:, :dim] - xP  # x(xi) - xP
                         return J
 
                     xiP = []
